@@ -102,7 +102,9 @@ type taskState struct {
 	fwdPID     int64
 	confirmed  bool
 	deliveries int
-	firstSeenInc int
+	lastSeenInc int // incarnation of the source stream that (last) handed this task over
+	lastSeenSeq int // event number of that hand-over
+	owner       string
 }
 
 type Recorder struct {
@@ -128,6 +130,9 @@ type Recorder struct {
 	tgtSrcLast map[string]int64
 	tgtAcked   map[string]bool
 	tgtEnded   map[string]bool
+	tgtEndSeq  map[string]int // target shard -> event number of its latest stream end
+	srcViolLevel map[string]int64  // per source, within its current incarnation: highest ack already flagged ...
+	srcViolCause map[string]string // ... and the cause it was attributed to
 	kindCount  map[string]int64
 	perStreamKind map[string]int
 	maxOutstandingTargets int
@@ -143,7 +148,7 @@ func NewRecorder(sc *Scenario) *Recorder {
 		tasks: map[string]*taskState{}, originals: map[string]*replicationv1.ReplicationTask{}, unconf: map[string]map[int64]*taskState{},
 		srcMaxHigh: map[string]int64{}, srcInc: map[string]int{}, srcLastAck: map[string]int64{}, srcAckEver: map[string]int64{}, srcFirstID: map[string]int64{},
 		tgtPending: map[string]map[int64]*taskState{}, tgtLastID: map[string]int64{}, tgtLastHigh: map[string]int64{}, tgtSrcLast: map[string]int64{},
-		tgtAcked: map[string]bool{}, tgtEnded: map[string]bool{}, kindCount: map[string]int64{}, perStreamKind: map[string]int{}, finalAckAt: map[string]int64{}}
+		tgtAcked: map[string]bool{}, tgtEnded: map[string]bool{}, tgtEndSeq: map[string]int{}, srcViolLevel: map[string]int64{}, srcViolCause: map[string]string{}, kindCount: map[string]int64{}, perStreamKind: map[string]int{}, finalAckAt: map[string]int64{}}
 }
 
 func (r *Recorder) now() int64 { return time.Since(r.start).Milliseconds() }
@@ -194,12 +199,18 @@ func (r *Recorder) SrcSend(stream string, m *replicationv1.WorkflowReplicationMe
 		mark := t.RawTaskInfo.RunId
 		ts := r.tasks[mark]
 		if ts == nil {
-			ts = &taskState{src: src, orig: t.SourceTaskId, firstSeenInc: r.srcInc[src]}
+			ts = &taskState{src: src, orig: t.SourceTaskId}
+			nT, tc := r.sc.NR, 'R' // tasks of an L source are owned by R shards and vice versa
+			if src[0] == 'R' {
+				nT, tc = r.sc.NL, 'L'
+			}
+			ts.owner = fmt.Sprintf("%c:%d", tc, int(farm.Fingerprint32([]byte(t.RawTaskInfo.NamespaceId+"_"+t.RawTaskInfo.WorkflowId))%uint32(nT))+1)
 			r.tasks[mark] = ts
 			if _, ok := r.srcFirstID[src]; !ok {
 				r.srcFirstID[src] = t.SourceTaskId
 			}
 		}
+		ts.lastSeenInc, ts.lastSeenSeq = r.srcInc[src], len(r.Events)
 		if !ts.confirmed {
 			r.unconf[src][t.SourceTaskId] = ts
 		}
@@ -316,6 +327,8 @@ func (r *Recorder) SrcOpen(stream string) {
 	src := baseOf(stream)
 	r.srcInc[src]++
 	r.srcLastAck[src] = 0
+	delete(r.srcViolLevel, src)
+	delete(r.srcViolCause, src)
 	r.add(Event{Kind: "SRC_OPEN", Stream: stream})
 }
 
@@ -324,6 +337,7 @@ func (r *Recorder) Mark(kind, stream string) {
 	defer r.mu.Unlock()
 	if kind == "TGT_END" {
 		r.tgtEnded[stream] = true
+		r.tgtEndSeq[baseOf(stream)] = len(r.Events)
 	}
 	r.add(Event{Kind: kind, Stream: stream})
 }
@@ -372,13 +386,29 @@ func (r *Recorder) SrcAck(stream string, a int64) {
 		sort.Slice(bad, func(i, j int) bool { return bad[i].orig < bad[j].orig })
 		t := bad[0]
 		cause := ""
+		endSeq, ended := r.tgtEndSeq[t.owner]
 		switch {
+		case t.fwdStream != "" && r.tgtEnded[t.fwdStream]:
+			// forwarded on a target-stream incarnation that ended before confirming it
+			cause = "target-stream-broke-holding-task"
+		case t.fwdStream == "" && ended && endSeq > t.lastSeenSeq:
+			// handed over, never seen on a target stream, and the owning target's stream ended
+			// in between: the task died in that incarnation's queue
+			cause = "target-stream-broke-holding-task"
+		case t.lastSeenInc < r.srcInc[src]:
+			// received in an earlier incarnation of this source's stream and not re-sent yet
+			cause = "received-before-source-reconnect"
 		case t.fwdStream == "":
 			cause = "not-yet-forwarded"
-		case r.tgtEnded[t.fwdStream]:
-			cause = "target-incarnation-died-unconfirmed"
 		default:
 			cause = "unconfirmed-on-live-target"
+		}
+		// A repeat of an acknowledgement level that was already flagged in this incarnation
+		// (keep-alive re-sends of the same ack) claims nothing new: same root cause.
+		if lvl, ok := r.srcViolLevel[src]; ok && a <= lvl {
+			cause = r.srcViolCause[src]
+		} else {
+			r.srcViolLevel[src], r.srcViolCause[src] = a, cause
 		}
 		prop := "C01"
 		if faults(r.sc) {
